@@ -84,3 +84,29 @@ Proof.
   do 6 (split; [vm_compute; reflexivity|]).
   vm_compute. discriminate.
 Qed.
+
+(* non-vacuity for the operations that return several meshes or rebuild through RemovedUnreferencedVertices:
+   SetFloat3Data, FilterFloat3 (whole triangles), SliceByPlane (two results), SplitOnUniqueMaterials (one result per
+   material), ToPointCloud + CropFloat3Attribute; the sliced mesh (member 2) and the first slice (member 4) report at
+   the end what they reported when made *)
+Definition c01_example_multi_ops : list op :=
+  [ONew Triangle [[0]; [1]; [2]; [2]; [1]; [3]]%Z 2;
+   OSetData K3 0 [(5%N, [[0;0;1]; [0;0;1]; [0;0;1]; [0;0;1]]%Z); (6%N, [[0;0;0]; [4;0;0]; [0;4;0]; [4;4;0]]%Z)];
+   OSetMaterials 1 [[1; 7]; [1; 8]]%Z 1;                                      (* 2 *)
+   OFilter K3 2 6%N [] [[2]; [1]; [3]]%Z;                                     (* 3 *)
+   OMulti 2 (Some 6%N) [] [([[0]; [1]; [2]]%Z, None); ([], None)];             (* 4, 5 *)
+   OMulti 2 None [Triangle] [([[0]; [1]; [2]]%Z, Some 7%Z); ([[2]; [1]; [3]]%Z, Some 8%Z)];   (* 6, 7 *)
+   OToPoints 2; OCrop 8 6%N [0; 3]; OAppend 4 7; OAppend 4 6].                (* 8, 9, 10, 11 *)
+
+Example c01_example_multi :
+  let ops := c01_example_multi_ops in
+  length (pool (run grow_double true ops 10)) = 12 /\
+  observe_member (run grow_double true ops 10) 2 = observe_member (run grow_double true ops 3) 2 /\
+  observe_member (run grow_double true ops 10) 4 = observe_member (run grow_double true ops 5) 4 /\
+  option_map (fun o => (length (o_idx o), o_mats o)) (observe_member (run grow_double true ops 10) 7) = Some (3, [[1; 8]]%Z) /\
+  option_map (fun o => length (o_idx o)) (observe_member (run grow_double true ops 10) 9) = Some 2.
+Proof.
+  cbv zeta.
+  do 4 (split; [vm_compute; reflexivity|]).
+  vm_compute; reflexivity.
+Qed.
